@@ -1102,6 +1102,155 @@ func (e *Engine) dispatch(s *State, f *Frame, fn *ssa.Function, args []Value, bi
 			}
 			set(B(same))
 		}
+	case "fmt.Fprintf":
+		// formats made of literal text and %s / %v verbs with optional '-' flag, width and precision (numbers or *)
+		// on string operands: exact (width and precision count runes, as fmt does). Anything else: unsupported.
+		ai := 0
+		var dst *Obj
+		var dstID int
+		if name == "fmt.Fprintf" {
+			dst, dstID = bufObj(s, args[0])
+			if dst == nil {
+				panic(engineUnsupported("fmt.Fprintf to a writer that is not a *bytes.Buffer"))
+			}
+			ai = 1
+		}
+		fstr, okf := args[ai].(*StringV)
+		var fb []byte
+		if okf {
+			if nb := fstr.B.Norm(); nb.Vec != nil {
+				for _, t := range nb.Vec {
+					if !t.IsConst() {
+						okf = false
+						break
+					}
+					fb = append(fb, byte(t.Val))
+				}
+			} else {
+				okf = false
+			}
+		}
+		if !okf {
+			panic(engineUnsupported("fmt formatting with a non-constant format at " + site))
+		}
+		var ops []Value
+		if sl, ok := args[ai+1].(*SliceV); ok && sl.Obj != 0 {
+			o := s.heap[sl.Obj]
+			for i := int(sl.Off.Val); i < int(sl.Off.Val+sl.Len.Val); i++ {
+				ops = append(ops, o.E[i])
+			}
+		}
+		next := func() Value {
+			if len(ops) == 0 {
+				panic(engineUnsupported("fmt formatting: missing operand at " + site))
+			}
+			v := ops[0]
+			ops = ops[1:]
+			if iv, ok := v.(*IfaceV); ok {
+				return iv.V
+			}
+			return v
+		}
+		intOp := func() int {
+			t, ok := next().(*Term)
+			if !ok || !t.IsConst() {
+				panic(engineUnsupported("fmt formatting: symbolic width/precision at " + site))
+			}
+			return int(int64(t.Val))
+		}
+		out := EmptyBytes()
+		var lit []*Term
+		flush := func() {
+			if len(lit) > 0 {
+				out = Concat2(out, VecBytes(lit))
+				lit = nil
+			}
+		}
+		for i := 0; i < len(fb); i++ {
+			if fb[i] != '%' {
+				lit = append(lit, C(8, uint64(fb[i])))
+				continue
+			}
+			i++
+			if i < len(fb) && fb[i] == '%' {
+				lit = append(lit, C(8, '%'))
+				continue
+			}
+			left := false
+			for i < len(fb) && fb[i] == '-' {
+				left = true
+				i++
+			}
+			width, prec := -1, -1
+			num := func() int {
+				if i < len(fb) && fb[i] == '*' {
+					i++
+					return intOp()
+				}
+				v, seen := 0, false
+				for i < len(fb) && fb[i] >= '0' && fb[i] <= '9' {
+					v = v*10 + int(fb[i]-'0')
+					i++
+					seen = true
+				}
+				if !seen {
+					return -1
+				}
+				return v
+			}
+			width = num()
+			if i < len(fb) && fb[i] == '.' {
+				i++
+				prec = num()
+				if prec < 0 {
+					prec = 0
+				}
+			}
+			if i >= len(fb) || (fb[i] != 's' && fb[i] != 'v') {
+				panic(engineUnsupported("fmt verb not modelled in " + string(fb) + " at " + site))
+			}
+			sv, ok := next().(*StringV)
+			if !ok {
+				panic(engineUnsupported("fmt %s/%v on a non-string operand at " + site))
+			}
+			flush()
+			txt := sv.B
+			if width < 0 && prec < 0 {
+				out = Concat2(out, txt)
+				continue
+			}
+			pcut := 1 << 30
+			if prec >= 0 {
+				pcut = prec
+			}
+			off, cnt, ok2 := utf8Cut(txt, pcut)
+			if !ok2 {
+				panic(engineUnsupported("fmt width/precision on a text longer than the UTF-8 model at " + site))
+			}
+			if prec >= 0 {
+				txt = SliceBytes(txt, CI(0), off)
+				cnt = Ite(Lt(CI(int64(prec)), cnt, true), CI(int64(prec)), cnt)
+			}
+			pad := EmptyBytes()
+			if width > 0 {
+				pn := Ite(Lt(cnt, CI(int64(width)), true), Sub(CI(int64(width)), cnt), CI(0))
+				pad = RepeatByte(C(8, ' '), pn)
+			}
+			if left {
+				out = Concat2(Concat2(out, txt), pad)
+			} else {
+				out = Concat2(Concat2(out, pad), txt)
+			}
+		}
+		flush()
+		if name == "fmt.Sprintf" {
+			set(&StringV{B: out})
+		} else {
+			e.access(s, dstID, true, site)
+			dst.Epoch++
+			dst.B = Concat2(dst.B, out)
+			set(TupleV{out.Len, nilErr})
+		}
 	case "slices.Grow":
 		// slices.Grow(s, n): guarantees room for n more elements; when the spare capacity is short it allocates
 		// len+n (or more) elements. Recorded as an allocation of that size; the returned slice keeps the modelled
